@@ -32,9 +32,9 @@ def M(packets, delay, nc, ns, budget, alphabet, events, invs, cont=True):
 PLANS = {
     "C14": dict(
         quick=dict(mc=[M(3, d, 0, 0, 0, "none", 30, ["Inv_C14", "Inv_C15"], cont=False) for d in (0, 1, 2)],
-                   drv=["--no-machines", "--scenarios", 300, "--max-packets", 60]),
+                   drv=["--no-machines", "--scenarios", 300, "--max-packets", 60, "--burst", 70000]),
         thorough=dict(mc=[M(4, d, 0, 0, 0, "none", 40, ["Inv_C14", "Inv_C15"], cont=False) for d in (0, 1, 2, 4)],
-                      drv=["--no-machines", "--scenarios", 3000, "--max-packets", 200])),
+                      drv=["--no-machines", "--scenarios", 3000, "--max-packets", 200, "--burst", 300000])),
     "C15": dict(
         quick=dict(mc=[M(2, 1, 1, 1, 2, "block", 16, ["Inv_C15"], cont=False), M(1, 0, 1, 0, 2, "all", 12, ["Inv_C15"])],
                    drv=["--scenarios", 200, "--directed", 2]),
